@@ -828,7 +828,20 @@ impl<'env> Executor<'env> {
                 }
                 #[cfg(feature = "multi_template")]
                 Instruction::FastSuper => {
+                    #[cfg(not(feature = "verif_hooks"))]
                     ctx_ok!(Self::perform_super(state, out, false));
+                    #[cfg(feature = "verif_hooks")]
+                    {
+                        let verif_before = state.verif_snapshot();
+                        let verif_rv = Self::perform_super(state, out, false);
+                        crate::verif_hooks::balance::nested(
+                            "super",
+                            verif_rv.is_ok(),
+                            verif_before,
+                            state.verif_snapshot(),
+                        );
+                        ctx_ok!(verif_rv);
+                    }
                 }
                 Instruction::FastRecurse => match state.ctx.current_loop() {
                     Some(l) => recurse_loop!(false, &l.object),
@@ -872,7 +885,20 @@ impl<'env> Executor<'env> {
                 #[cfg(feature = "multi_template")]
                 Instruction::Include(ignore_missing) => {
                     a = stack.pop();
+                    #[cfg(not(feature = "verif_hooks"))]
                     ctx_ok!(Self::perform_include(a, state, out, *ignore_missing));
+                    #[cfg(feature = "verif_hooks")]
+                    {
+                        let verif_before = state.verif_snapshot();
+                        let verif_rv = Self::perform_include(a, state, out, *ignore_missing);
+                        crate::verif_hooks::balance::nested(
+                            "include",
+                            verif_rv.is_ok(),
+                            verif_before,
+                            state.verif_snapshot(),
+                        );
+                        ctx_ok!(verif_rv);
+                    }
                 }
                 #[cfg(feature = "multi_template")]
                 Instruction::ExportLocals => {
@@ -889,7 +915,20 @@ impl<'env> Executor<'env> {
                 #[cfg(feature = "multi_template")]
                 Instruction::CallBlock(name) => {
                     if parent_instructions.is_none() && !out.is_discarding() {
+                        #[cfg(not(feature = "verif_hooks"))]
                         ctx_ok!(Self::call_block(name, state, out));
+                        #[cfg(feature = "verif_hooks")]
+                        {
+                            let verif_before = state.verif_snapshot();
+                            let verif_rv = Self::call_block(name, state, out);
+                            crate::verif_hooks::balance::nested(
+                                "call_block",
+                                verif_rv.is_ok(),
+                                verif_before,
+                                state.verif_snapshot(),
+                            );
+                            ctx_ok!(verif_rv);
+                        }
                     }
                 }
                 #[cfg(feature = "macros")]
